@@ -16,7 +16,7 @@ import ast
 
 from ..model import AnalysisError
 from ..terms import T, walk_terms
-from ..walk import (data_derives, ret_alts, call_parts, call_arg, is_call_to, const_val, NOVAL, strip_views, unwrap_gamma, norm_stmt, shape_dim, loop_role, newaxis_insertions, swaps_first_two_of_three, axis_reordering, index_chain)
+from ..walk import (data_derives, ret_alts, call_parts, call_arg, is_call_to, const_val, NOVAL, strip_views, unwrap_gamma, norm_stmt, shape_dim, loop_role, newaxis_insertions, swaps_first_two_of_three, axis_reordering, index_chain, none_test)
 from .. import loop as LP
 from .. import sel
 
@@ -249,21 +249,44 @@ def check_inline_em_alignment(run, A):
               'affiliation and quadratic form are permuted with different mappings', construct=f'R-PERM::{q}::same-mapping')
 
     def value_preserving(t, pname, depth=0):
-        """t is pname passed only through transposes and apply_mapping"""
+        """t is pname passed only through transposes and apply_mapping: returns (layout, number of gathers by the mapping) with layout 'FKT' (the
+        caller's) or 'KFT' (the aligner's), 'none' for the None alternative of an optional stream, or None when something else touches the values"""
         t = strip_views(t)
         if t.op == 'param':
-            return t.args[0] == pname
+            return ('FKT', 0) if t.args[0] == pname else None
+        if t.op == 'const':
+            return 'none' if t.args[0] is None else None
         if t.op == 'gamma':
-            return all(value_preserving(x, pname, depth + 1) or strip_views(x).op == 'const' for x in (t.args[1], t.args[2]))
+            alts = [value_preserving(x, pname, depth + 1) for x in (t.args[1], t.args[2])]
+            if any(a is None for a in alts):
+                return None
+            c, is_none = none_test(t.args[0])
+            if c is not None and c.op == 'param' and c.args[0] == pname:
+                # `x if x is None else aligned(x)`: the alternative taken for None carries no values
+                alts[0 if is_none else 1] = 'none'
+            real = {a for a in alts if a != 'none'}
+            if len(real) > 1:
+                return None
+            return real.pop() if real else 'none'
         sw = swaps_first_two_of_three(t)
         if sw is not None:
-            return value_preserving(sw, pname, depth + 1)
+            st = value_preserving(sw, pname, depth + 1)
+            if st in (None, 'none'):
+                return st
+            return ('KFT' if st[0] == 'FKT' else 'FKT', st[1])
         if call_parts(t)[0] == 'method:apply_mapping':
-            return value_preserving(call_arg(t, 1), pname, depth + 1)
+            st = value_preserving(call_arg(t, 1), pname, depth + 1)
+            if st in (None, 'none'):
+                return st
+            # apply_mapping permutes axis 0 per index of axis 1: defined on the aligner's (K, F, T) layout
+            return ('KFT', st[1] + 1) if st[0] == 'KFT' else None
         if t.op == 'sub' and _gather_by_mapping(t.args[1]):
             # x[arange(F)[:, None], mapping.T] on the (F, K, T) layout: out[f, k] = x[f, mapping[k, f]], the same gather as apply_mapping
-            return value_preserving(t.args[0], pname, depth + 1)
-        return False
+            st = value_preserving(t.args[0], pname, depth + 1)
+            if st in (None, 'none'):
+                return st
+            return ('FKT', st[1] + 1) if st[0] == 'FKT' else None
+        return None
 
     def _gather_by_mapping(idx):
         idx = strip_views(idx)
@@ -284,15 +307,24 @@ def check_inline_em_alignment(run, A):
                           construct=f'R-PERM::{q}::scatter-by-mapping')
     rets = ret_alts(g)
     ok_a = ok_q = True
+    why = []
+
+    def aligned_once(t, pname, optional=False):
+        st = value_preserving(t, pname)
+        if st == ('FKT', 1) or (optional and st == 'none'):
+            return True
+        why.append(f'{pname}: ' + ('something else than transpose / apply_mapping touches the values' if st is None else
+                                  f'returned in layout {st[0]} after {st[1]} gather(s) by the mapping' if st != 'none' else 'not returned'))
+        return False
     for r in rets:
         r = strip_views(r)
         if r.op == 'tuple':
-            ok_a = ok_a and value_preserving(r.args[0][0], 'affiliation')
-            ok_q = ok_q and value_preserving(r.args[0][1], 'quadratic_form')
+            ok_a = aligned_once(r.args[0][0], 'affiliation') and ok_a
+            ok_q = aligned_once(r.args[0][1], 'quadratic_form', optional=True) and ok_q
         else:
-            ok_a = ok_a and value_preserving(r, 'affiliation')
-    run.check(ok_a and ok_q, 'R-PERM', 'inline EM alignment: results are the inputs, transposed and gathered only', fn.loc(), '',
-              f'returned affiliation value-preserving: {ok_a}; quadratic form: {ok_q} (something else than transpose / apply_mapping touches the values)', construct=f'R-PERM::{q}::value-preserving')
+            ok_a = aligned_once(r, 'affiliation') and ok_a
+    run.check(ok_a and ok_q, 'R-PERM', 'inline EM alignment: every returned stream is its input, permuted exactly once by the mapping on the (K, F, T) layout and returned in the '
+              "caller's (F, K, T) layout", fn.loc(), '', '; '.join(why), construct=f'R-PERM::{q}::value-preserving')
     # the mapping is computed from the (K, F, T)-transposed affiliation
     ok_in = swaps_first_two_of_three(call_arg(maps[0], 1)) is not None
     run.check(ok_in, 'R-PERM', 'inline EM alignment: aligner sees (K, F, T)', fn.loc(maps[0].node), '', 'calculate_mapping is not called on the (1, 0, 2)-transposed affiliation', construct=f'R-PERM::{q}::layout')
